@@ -21,6 +21,10 @@ def rectangular (ls : List (List Int)) : Option Nat :=
   | [] => some 0
   | l :: rest => let n := (toks l).length; if rest.all (fun x => (toks x).length == n) then some n else none
 
+/-- the raw (not defaulted) options of the call, tokenised -/
+def rawOpts (src : Options Int) (o : String) : Option (Options Tok) :=
+  (if o == "=" then some src else parseOpts o).map tokOpts
+
 def compositeStep (pid : String) (a : List String) (src res : Obs) : String :=
   match src, res with
   | .ed text so _ _, .ed out _ _ _ =>
@@ -30,7 +34,7 @@ def compositeStep (pid : String) (a : List String) (src res : Obs) : String :=
       | some p, some l, some r, some gap, some w, some pct, some od =>
         if !stableDom [text, l, r] [od.lineSep] then "skip:unstable"
         else
-          match (Editor.root (toks text) (tokOpts od)).insertTwoColumnsOpts cxB p (toks l) (toks r) gap w pct (tokOpts od) with
+          match (Editor.root (toks text) (tokOpts od)).insertTwoColumnsOpts cxB p (toks l) (toks r) gap w pct ((rawOpts so o).getD (tokOpts od)) with
           | .ok e => if flat e.text == out then "ok" else s!"fail:C14 differs from the cluster-level layout; expected {showText (flat e.text)}"
           | .error _ => "fail:C14 cluster-level model is not total here"
       | _, _, _, _, _, _, _ => "skip:parse"
@@ -39,7 +43,7 @@ def compositeStep (pid : String) (a : List String) (src res : Obs) : String :=
       | some p, some d, some w, some od =>
         if !stableDom ([text] ++ d.flatMap fun x => [x.1, x.2]) [od.lineSep, od.paraSep] then "skip:unstable"
         else
-          match (Editor.root (toks text) (tokOpts od)).insertDefTableOpts cxB p (d.map fun x => (toks x.1, toks x.2)) w (tokOpts od) with
+          match (Editor.root (toks text) (tokOpts od)).insertDefTableOpts cxB p (d.map fun x => (toks x.1, toks x.2)) w ((rawOpts so o).getD (tokOpts od)) with
           | .ok e => if flat e.text == out then "ok" else s!"fail:C15 differs from the cluster-level layout; expected {showText (flat e.text)}"
           | .error _ => "fail:C15 cluster-level model is not total here"
       | _, _, _, _ => "skip:parse"
@@ -47,10 +51,11 @@ def compositeStep (pid : String) (a : List String) (src res : Obs) : String :=
       match parseInt p, parseTable d, parseInt w, effOpts so o with
       | some p, some d, some w, some od =>
         let upperOk := d.headD [] |>.all fun c => (toks (c.map upperRune)).length == (toks c).length
-        if !stableDom ([text, od.charset] ++ d.flatten ++ (d.headD []).map (·.map upperRune)) [od.lineSep] then "skip:unstable"
+        let rawCs := ((if o == "=" then some so else parseOpts o).map (·.charset)).getD []
+        if !stableDom ([text, od.charset, rawCs] ++ d.flatten ++ (d.headD []).map (·.map upperRune)) [od.lineSep] then "skip:unstable"
         else if !upperOk then "skip:upper-changes-length"
         else
-          match (Editor.root (toks text) (tokOpts od)).insertTableOpts cxB p (d.map (·.map toks)) w (tokOpts od) with
+          match (Editor.root (toks text) (tokOpts od)).insertTableOpts cxB p (d.map (·.map toks)) w ((rawOpts so o).getD (tokOpts od)) with
           | .ok e => if flat e.text == out then "ok" else s!"fail:C16 differs from the cluster-level layout; expected {showText (flat e.text)}"
           | .error _ => "fail:C16 cluster-level model is not total here"
       | _, _, _, _ => "skip:parse"
